@@ -60,8 +60,19 @@ func newPool(c *Ctx, w *World) *pool {
 				return
 			}
 			for _, o := range origins(st.Val) {
-				if mc, ok := o.Val.(*ssa.MakeClosure); ok {
-					pl.done = mc.Fn.(*ssa.Function)
+				if isConstNilOrigin(o) {
+					continue
+				}
+				mc, ok := o.Val.(*ssa.MakeClosure)
+				if !ok {
+					// (a callback produced by a call — a decorator wrapping the closure — may skip or repeat what the closure does)
+					c.fail("engine.anchor", "completion closure", p.ipos(st), "PickResult.Done can be "+o.String()+", which is not a closure of Pick: the completion rules would be checked on the wrong function")
+					continue
+				}
+				if fn := mc.Fn.(*ssa.Function); pl.done != nil && pl.done != fn {
+					c.fail("engine.anchor", "completion closure", p.ipos(st), "PickResult.Done can be one of several closures ("+fname(pl.done)+", "+fname(fn)+")")
+				} else {
+					pl.done = fn
 				}
 			}
 		})
